@@ -58,6 +58,27 @@ class Out:
 '''
 
 
+ATTR_DEFAULT_SRC = """
+import math
+from spec_classes import spec_class, Attr
+
+@spec_class
+class AD:
+    xs: list = Attr(default=[math])       # the declaration itself holds a module; copied when the class is first used
+    ys: list = Attr(default_factory=lambda: [math])
+"""
+
+
+def first_use_of_attr_default():
+    import sys
+
+    mod = cg.exec_module(ATTR_DEFAULT_SRC, prefix="verif_c20ad")
+    try:
+        return mod.__dict__["AD"]()
+    finally:
+        sys.modules.pop(mod.__name__, None)
+
+
 def GATES(tier):
     return [("quiescent_checks", 500), ("ops_with_copy_protection|protection_tracking_unavailable", 1), ("max_protection_depth_ge2|protection_tracking_unavailable", 1), ("line_failpoints_run", 100),
             ("pre:clean", 50), ("pre:user_class_entry", 50), ("pre:module_entry", 50), ("schedules_run", 100), ("schedules_distinct_traces", 30), ("schedule_threads_succeeded", 200)]
@@ -184,6 +205,7 @@ def handwritten_ops(ns, rng):
     deep3 = {"lvl1": [{"lvl2": Out(i=In(m=math), items=[math])}]}
     return [
         ("construct:defaults", 1, lambda: Out()),
+        ("construct:first_use_attr_default_module", 1, first_use_of_attr_default),
         ("construct:nested_arg", 2, lambda: Out(i=In(m=json_mod))),
         ("construct:module_arg", 1, lambda: Out(mod=json_mod, items=[math, [json_mod]])),
         ("with:nested", 2, lambda: o.with_i(In(m=math))),
@@ -227,6 +249,9 @@ def run_histories(ctx, params):
                     outcome = "returned"
                 except Exception as e:
                     outcome = f"raised:{type(e).__name__}"
+                    if not label.startswith("raising_"):
+                        ctx.violation("module_bearing_operation_succeeds", f"{label} [{pre}] raised {type(e).__name__}: {safe_repr(e, 120)} - values that contain modules are copied like any others",
+                                      features={"pre": pre, "op": label, "phase": "plain", "exc": type(e).__name__}, case=[pre, label, rep])
                 if mon.entered > before:
                     ctx.count("ops_with_copy_protection")
                 ctx.count(f"pre:{pre}")
@@ -258,7 +283,9 @@ def run_histories(ctx, params):
                 ctx.sig(pre, "linefault", label, where, outcome)
                 mon.check(baseline, f"{label} aborted at library line event #{n} ({where}:{fp.fired_at[1]}) [{pre}]",
                           {"pre": pre, "op": label, "depth": depth, "outcome": outcome, "phase": "line_failpoint", "fault_at": where,
-                           "fault_in_protection_bookkeeping": fp.fired_at[2] in ("__enter__", "__exit__", "__new__", "__init__") and fp.fired_at[0].endswith("mutation.py")},
+                           "fault_in_protection_bookkeeping": fp.fired_at[2] in ("__enter__", "__exit__", "__new__", "__init__", "_release_to") and fp.fired_at[0].endswith("mutation.py"),
+                           # statements of __exit__ that run before the release has begun (offset from the `def` line):
+                           "fault_before_release_begins": fp.fired_at[2] == "__exit__" and fp.fired_at[0].endswith("mutation.py") and fp.fired_at[3] <= 3},
                           [pre, label, "line", n])
         # --- grammar-generated histories ---------------------------------------------------------------
         for ci in range(params["gen_cases"]):
